@@ -226,8 +226,8 @@ def run_rules_dispatch(prog, rr):
     from ..minieval import Evaluator, Obj, Raised, Unsupported
     a = rr.node.args
     params = [x.arg for x in a.posonlyargs + a.args]
-    if len(params) != 3 or a.vararg or a.kwarg:
-        raise AnalysisError(f"{rr.key}: expected the signature (self, context, rule), found {params}")
+    if len(params) < 3 or len(params) - len(a.defaults) > 3 or a.vararg or a.kwarg:
+        raise AnalysisError(f"{rr.key}: expected the signature (self, context, rule[, optional...]), found {params}")
     reg = prog.cls("Registry")
     methods = {("Registry", n): m.node for n, m in reg.methods.items()}
     bad = {"named": [], "_rule": [], "state": []}
@@ -258,7 +258,7 @@ def run_rules_dispatch(prog, rr):
             me = Obj("Registry", dependencies=deps)
             desc = f"{cls_name} whose run() returns {result!r}"
             try:
-                r = ev.call_function(rr.node, {params[0]: me, params[1]: ctx, params[2]: (lambda o: (lambda *x: o))(inst)})
+                r = ev.invoke(rr.node, [me, ctx, (lambda o: (lambda *x: o))(inst)], {})
             except (Raised, LookupError, TypeError, ValueError, AttributeError) as e:
                 if cls_name == "Check":
                     bad["named"].append(f"for a {desc} run_rules fails with {type(e).__name__} (the result of a check must be ignored)")
@@ -519,7 +519,7 @@ def check(run, prog):
     run.rule("R-2.5", "REG x EMIT: for every live emission site of an enforced code in a Check, the statement kinds of the "
              "check's slots after which the site cannot be reached (paths closed by constant tests on context.history[-1] in "
              "run() or in the helper holding the site) stay within the frozen tables UNIT_BASE / SITE_EXTRA: a new "
-             "`history[-1] != X` guard silently removes the rule from X statements", floor=150)
+             "`history[-1] != X` guard silently removes the rule from X statements", floor=105)
     seen = {}
     for unit, codes in sorted(ENFORCED.items()):
         if unit not in prog.classes or not prog.is_sub(unit, "Check"):
